@@ -253,6 +253,9 @@ def check(ctx):
     from .c10 import family_rules
 
     family_rules(ctx, {"a": "C17-f"})
+    from .c04 import check_all_steps_and_storage
+
+    check_all_steps_and_storage(ctx, "C17-g", None)
     ctx.floor("C17", len(ctx.obligs), 14, "shift / schedule / guard obligations")
 
 
